@@ -493,6 +493,9 @@ func c30Judge(c *fw.Ctx, p *genrun.Pkg, optDesc string) {
 		}
 		if len(r.rhs) == 0 {
 			c.Count("empty_rules", 1)
+			if r.prec != "" {
+				c.Count("empty_rules_with_prec", 1)
+			}
 		}
 	}
 	if len(want.prec) > 0 {
@@ -593,7 +596,7 @@ func init() {
 			return 60
 		},
 		RequiredCounters: []string{"shipped_grammars", "rules_compared_equal", "prec_groups_compared", "rules_with_prec", "rhs_state_markers",
-			"rhs_lookahead_nonterminals", "empty_rules", "exports_matching", "token_declarations_compared"},
+			"rhs_lookahead_nonterminals", "empty_rules", "empty_rules_with_prec", "exports_matching", "token_declarations_compared"},
 		CPUBudget: 900,
 		Run:       c30Run,
 	})
